@@ -368,7 +368,7 @@ func runHosts(e *exec) {
 		simrt.Settle()
 		h.checkNotifs(exp, o.K)
 		h.checkState(o.K)
-		if len(e.res.Violations) > 0 {
+		if e.fatal {
 			break
 		}
 	}
